@@ -431,6 +431,9 @@ pub fn run_subcheck(ctx: &RunCtx, prop: &Property, sc: &SubCheck, known: &[Known
             Err(e) => res.infra.push(format!("bad regression case {:?}: {}", txt, e)),
         }
     }
+    // samples in the evidence should show generated cases, not the fixed regression inputs
+    res.stats.samples_nt.clear();
+    res.stats.samples_other.clear();
     // 2. the driver
     match &sc.driver {
         Driver::Custom { run } => {
